@@ -45,6 +45,7 @@ IsPair(r) == r.kind = "pair"
 IsGate(r) == r.kind = "gate"
 IsHash(r) == r.kind = "hash"
 IsBatch(r) == r.kind = "batch"
+IsHist(r) == r.kind = "history"
 
 TInit == /\ l \in 1..N
          /\ D = (IF IsHash(Trace[l]) THEN <<>> ELSE Trace[l].d)
@@ -63,7 +64,8 @@ InputWellFormed == UnitsKnown /\ UnitsKnownM
 Bad(name) == PrintT(<<"BAD", name, l>>)
 
 SoundLine    == IsPair(R) => \A k \in DOMAIN R.res : R.res[k].accepted => OracleMatch(M, D)
-CompleteLine == IsPair(R) => \A k \in DOMAIN R.res : TotalsEqual(M, D) => ~R.res[k].resrej
+\* accept / reject only (never the error's text or identity): everything the statement lists is equal => not rejected
+CompleteLine == IsPair(R) => \A k \in DOMAIN R.res : OracleMatch(M, D) => R.res[k].crossok
 
 \* manager.validateRequest: the version the provider holds the tenant to
 Expected(r) == IF Len(r.updates) > 0 THEN r.updates[Len(r.updates)] ELSE r.chain
@@ -72,6 +74,19 @@ GateLine ==
     \* a batch: several submissions queued while the manager's chain query was in flight, validated together
     /\ IsBatch(R) => \A k \in DOMAIN R.subs :
            R.subs[k].accepted => (R.subs[k].hid = Expected(R) /\ OracleMatch(R.subs[k].m, D))
+
+\* histories: submissions and version updates interleaved on one deployment. The version the chain records NOW,
+\* as far as the provider has been told: the last update event before step i, else the fetched version.
+Upds(r, i) == {j \in 1..(i - 1) : r.steps[j].op = "upd"}
+ExpectedAt(r, i) == IF Upds(r, i) = {} THEN r.chain
+                    ELSE r.steps[CHOOSE j \in Upds(r, i) : \A k \in Upds(r, i) : k <= j].hid
+GoodStep(r, j) == r.steps[j].op = "sub" /\ r.steps[j].hid = ExpectedAt(r, j) /\ OracleMatch(r.steps[j].m, D)
+HistLine ==
+    IsHist(R) => \A i \in DOMAIN R.steps :
+        /\ R.steps[i].accepted => GoodStep(R, i)        \* every reply: hash = version recorded on chain NOW
+        \* whatever is (re-)announced is a manifest that was rightly accepted at or before this step
+        /\ \A a \in DOMAIN R.steps[i].ann :
+               \E j \in 1..i : GoodStep(R, j) /\ R.steps[j].hid = R.steps[i].ann[a]
 
 \* What the provider ANNOUNCES (event.ManifestReceived on the real bus: the manifest the cluster service deploys) is
 \* held to the same standard as what it replies: its hash is the expected version, it is one of the submitted
@@ -87,6 +102,7 @@ ImplSound    == (SoundLine \/ ~Bad("ImplSound"))
 ImplComplete == (CompleteLine \/ ~Bad("ImplComplete"))
 GateSound    == (GateLine \/ ~Bad("GateSound"))
 AnnounceSound == (AnnounceLine \/ ~Bad("AnnounceSound"))
+HistorySound == (HistLine \/ ~Bad("HistorySound"))
 
 \* the hash observations, judged once (on the first line) as a whole
 HashObs  == SelectSeq(Trace, IsHash)
@@ -124,5 +140,10 @@ ConformGateLine ==
                                     /\ ValidB(R.subs[k].m, R.ballast) /\ Cross(R.subs[k].m, D) = "ok" IN
                       /\ \A k \in DOMAIN R.subs : R.subs[k].accepted = acc(k)
                       /\ Announced(R) = {R.subs[k].hid : k \in {j \in DOMAIN R.subs : acc(j)}}
-Conform == (ConformPairLine /\ ConformGateLine) \/ PrintT(<<"DRIFTLINE", l>>)
+ConformHistLine ==
+    IsHist(R) => \A i \in DOMAIN R.steps :
+        R.steps[i].op = "sub" =>
+            R.steps[i].accepted = (/\ R.steps[i].hid = ExpectedAt(R, i)
+                                   /\ ValidB(R.steps[i].m, R.ballast) /\ Cross(R.steps[i].m, D) = "ok")
+Conform == (ConformPairLine /\ ConformGateLine /\ ConformHistLine) \/ PrintT(<<"DRIFTLINE", l>>)
 =============================================================================
